@@ -4,6 +4,7 @@ import (
 	"fmt"
 	"go/ast"
 	"go/constant"
+	"go/parser"
 	"go/token"
 	"go/types"
 	"regexp"
@@ -22,6 +23,8 @@ type Env struct {
 	bound map[string]Term
 	qvars map[string]bool // SMT names of quantifier-bound variables in scope
 	recSelf map[string]bool
+	inAxiom bool
+	noLocals bool // callee contract: the caller's locals are not in scope
 	pkg   *types.Package
 	fn    *ssa.Function
 	reach string
@@ -208,8 +211,23 @@ func (env *Env) ident(name string) Term {
 		return t
 	}
 	// local variable of the function under verification
-	if env.e != nil && env.e.top {
+	if env.e != nil && env.e.top && !env.noLocals {
 		if t, ok := env.e.resolveLocal(name, env.at, env.heap); ok {
+			return t
+		}
+		if refs := env.e.names[name]; len(refs) > 0 && !refs[0].isAddr {
+			// the local is not defined on this path: any value (it cannot matter)
+			k := "undef:" + name
+			if t, ok := env.e.undefLocals[k]; ok {
+				return t
+			}
+			ty := refs[0].val.Type()
+			so := env.u().sortOf(ty)
+			t := mk(env.e.vc.fresh("undef_"+name, string(so)), so, ty)
+			if env.e.undefLocals == nil {
+				env.e.undefLocals = map[string]Term{}
+			}
+			env.e.undefLocals[k] = t
 			return t
 		}
 	}
@@ -442,6 +460,28 @@ func (env *Env) call(n *ast.CallExpr) Term {
 			v := env.ev(n.Args[0])
 			u.clockVar()
 			return boolT(and(app(">=", v.S, env.old.get("clock")), app("<", v.S, env.heap.get("clock"))))
+		case "fst", "snd":
+			v := env.ev(n.Args[0])
+			if len(v.Tup) < 2 {
+				cfail("%s of non-tuple", id.Name)
+			}
+			if id.Name == "fst" {
+				return v.Tup[0]
+			}
+			return v.Tup[1]
+		case "as":
+			v := env.ev(n.Args[0])
+			ty := env.typeExpr(n.Args[1])
+			return mk(v.S, env.u().sortOf(ty), ty)
+		case "freshslice":
+			// nil, or a backing row allocated during the call
+			v := env.ev(n.Args[0])
+			u.clockVar()
+			return boolT(or(eq(app("s_base", v.S), "0"), and(app(">=", app("s_base", v.S), env.old.get("clock")), app("<", app("s_base", v.S), env.heap.get("clock")), eq(app("s_off", v.S), "0"))))
+		case "disjoint":
+			// two slices do not share a backing row
+			a, b := env.ev(n.Args[0]), env.ev(n.Args[1])
+			return boolT(or(eq(app("s_base", a.S), "0"), not(eq(app("s_base", a.S), app("s_base", b.S)))))
 		case "isobj":
 			// a top-level heap object (not an interior pointer to an embedded struct, not nil)
 			v := env.ev(n.Args[0])
@@ -544,6 +584,12 @@ func (env *Env) typeExpr(x ast.Expr) types.Type {
 		return types.NewPointer(env.typeExpr(n.X))
 	case *ast.ParenExpr:
 		return env.typeExpr(n.X)
+	case *ast.MapType:
+		return types.NewMap(env.typeExpr(n.Key), env.typeExpr(n.Value))
+	case *ast.ArrayType:
+		if n.Len == nil {
+			return types.NewSlice(env.typeExpr(n.Elt))
+		}
 	case *ast.Ident:
 		if env.pkg != nil {
 			if o := env.pkg.Scope().Lookup(n.Name); o != nil {
@@ -585,13 +631,8 @@ func (env *Env) quant(kind string, n *ast.CallExpr) Term {
 	for ; k < len(n.Args)-1; k++ {
 		switch a := n.Args[k].(type) {
 		case *ast.Ident:
-			if _, isName := env.lookupName(a.Name); isName {
+			if a.Name == "true" || a.Name == "false" {
 				goto done
-			}
-			if env.e.top {
-				if _, ok := env.e.names[a.Name]; ok {
-					goto done
-				}
 			}
 			vars = append(vars, a.Name)
 			sorts = append(sorts, SInt)
@@ -654,31 +695,40 @@ done:
 		cfail("%s: too many arguments", kind)
 	}
 	pats := choosePatterns(body, c.bound, vars)
-	pat := ""
 	if len(pats) > 0 {
-		pat = " :pattern (" + strings.Join(pats, " ") + ")"
+		pat := ""
+		for _, p := range pats {
+			pat += " :pattern (" + p + ")"
+		}
 		return boolT(fmt.Sprintf("(%s (%s) (! %s%s))", kind, strings.Join(decl, " "), body, pat))
 	}
 	return boolT(fmt.Sprintf("(%s (%s) %s)", kind, strings.Join(decl, " "), body))
 }
 
-// choosePatterns picks accessor applications (at_*, select on heap arrays) that mention
-// every bound variable directly as an argument; returns nil to let the solver choose.
+// choosePatterns picks accessor applications (slice accessors at_*, ghost/rec/pure
+// functions) that mention every bound variable as a direct argument; each becomes an
+// alternative single-term pattern. Returns nil to let the solver choose.
 func choosePatterns(body string, bound map[string]Term, vars []string) []string {
 	var bnames []string
 	for _, v := range vars {
 		bnames = append(bnames, bound[v].S)
 	}
-	// collect all sub-terms that are applications of at_* whose argument list contains the bound var as a whole token
+	seen := map[string]bool{}
 	var cands []string
+	prefixes := []string{"at_", "gh_", "rec_", "pf_", "ext_"}
 	for i := 0; i < len(body); i++ {
 		if body[i] != '(' {
 			continue
 		}
-		if !strings.HasPrefix(body[i+1:], "at_") {
+		ok := false
+		for _, p := range prefixes {
+			if strings.HasPrefix(body[i+1:], p) {
+				ok = true
+			}
+		}
+		if !ok {
 			continue
 		}
-		// find matching paren
 		d := 0
 		j := i
 		for ; j < len(body); j++ {
@@ -695,31 +745,109 @@ func choosePatterns(body string, bound map[string]Term, vars []string) []string 
 			break
 		}
 		sub := body[i : j+1]
-		// last argument must be exactly a bound var
+		if seen[sub] {
+			continue
+		}
+		// every bound variable must occur as a direct (top-level) argument
+		args := topLevelArgs(sub)
+		all := true
 		for _, bn := range bnames {
-			if strings.HasSuffix(sub, " "+bn+")") {
-				cands = append(cands, sub)
+			found := false
+			for _, a := range args {
+				if a == bn {
+					found = true
+				}
+			}
+			if !found {
+				all = false
 			}
 		}
-	}
-	if len(cands) == 0 {
-		return nil
-	}
-	// single-variable quantifier: first candidate that contains no other arithmetic on bound var
-	if len(bnames) == 1 {
-		seen := map[string]bool{}
-		var res []string
-		for _, c := range cands {
-			if !seen[c] && strings.Count(c, bnames[0]) == 1 {
-				seen[c] = true
-				res = append(res, c)
+		if !all {
+			continue
+		}
+		// no other bound-variable arithmetic inside
+		clean := true
+		for _, a := range args {
+			for _, bn := range bnames {
+				if a != bn && strings.Contains(a, bn) {
+					clean = false
+				}
 			}
 		}
-		if len(res) > 0 {
-			return res[:1]
+		if !clean {
+			continue
+		}
+		// must not mention variables bound by other (nested) quantifiers
+		foreign := false
+		for _, m := range rxAnyBound.FindAllString(sub, -1) {
+			own := false
+			for _, bn := range bnames {
+				if m == bn {
+					own = true
+				}
+			}
+			if !own {
+				foreign = true
+			}
+		}
+		if foreign {
+			continue
+		}
+		seen[sub] = true
+		cands = append(cands, sub)
+	}
+	if len(cands) > 4 {
+		cands = cands[:4]
+	}
+	return cands
+}
+
+func topLevelArgs(app string) []string {
+	// app = "(f a1 a2 ...)"
+	inner := app[1 : len(app)-1]
+	var args []string
+	d := 0
+	cur := strings.Builder{}
+	inStr := false
+	for i := 0; i < len(inner); i++ {
+		c := inner[i]
+		if inStr {
+			cur.WriteByte(c)
+			if c == '"' {
+				inStr = false
+			}
+			continue
+		}
+		switch c {
+		case '"':
+			inStr = true
+			cur.WriteByte(c)
+		case '(':
+			d++
+			cur.WriteByte(c)
+		case ')':
+			d--
+			cur.WriteByte(c)
+		case ' ':
+			if d == 0 {
+				if cur.Len() > 0 {
+					args = append(args, cur.String())
+					cur.Reset()
+				}
+			} else {
+				cur.WriteByte(c)
+			}
+		default:
+			cur.WriteByte(c)
 		}
 	}
-	return nil
+	if cur.Len() > 0 {
+		args = append(args, cur.String())
+	}
+	if len(args) > 0 {
+		args = args[1:]
+	}
+	return args
 }
 
 // goCall evaluates a call to a real Go function inside a contract: inlined if possible,
@@ -758,6 +886,9 @@ func (env *Env) goCall(f *ssa.Function, recv *Term, argx []ast.Expr) Term {
 		sub.noName = true
 		ret, _, _ := sub.run(args, env.heap, "true")
 		return ret
+	}
+	if e.p.autoPure(e.u(), f) {
+		return e.autoPureCall(f, name, args, env.heap)
 	}
 	cfail("function %s used in a contract is neither inlinable nor declared pure", name)
 	return Term{}
@@ -871,6 +1002,9 @@ func (env *Env) goCallTerms(f *ssa.Function, args []Term) Term {
 		ret, _, _ := sub.run(args, env.heap, "true")
 		return ret
 	}
+	if e.p.autoPure(e.u(), f) {
+		return e.autoPureCall(f, name, args, env.heap)
+	}
 	cfail("method %s used in a contract is neither inlinable nor declared pure", name)
 	return Term{}
 }
@@ -915,6 +1049,33 @@ func (env *Env) specCall(sf *SpecFunc, argx []ast.Expr) Term {
 	}
 	fn := "gh_" + sanitize(sf.Name)
 	u.declareUF(fn, fmt.Sprintf("(declare-fun %s (%s) %s)", fn, strings.Join(sorts, " "), sf.Result))
+	if len(sf.Axioms) > 0 && !env.inAxiom {
+		var hk []string
+		for _, v := range vars {
+			hk = append(hk, env.heap.get(v))
+		}
+		key := sf.Name + "|" + strings.Join(hk, ",")
+		vc := env.e.vc
+		if vc.axInst == nil {
+			vc.axInst = map[string]bool{}
+		}
+		if !vc.axInst[key] {
+			vc.axInst[key] = true
+			c := env.clone()
+			c.inAxiom = true
+			c.bound = map[string]Term{}
+			c.qvars = map[string]bool{}
+			c.old = c.heap
+			savedNoName, savedQuiet := env.e.noName, vc.quiet
+			env.e.noName, vc.quiet = true, true
+			for i, ax := range sf.Axioms {
+				t := c.ev(ax)
+				vc.def(t.S)
+				vc.assumptions["definitional axiom of ghost function "+sf.Name+": "+sf.AxiomSrc[i]] = true
+			}
+			env.e.noName, vc.quiet = savedNoName, savedQuiet
+		}
+	}
 	var rt types.Type
 	switch sf.Result {
 	case SBool:
@@ -931,6 +1092,8 @@ func (env *Env) specCall(sf *SpecFunc, argx []ast.Expr) Term {
 }
 
 type SpecFunc struct {
+	Axioms    []ast.Expr // definitional axioms of a ghost function, instantiated per heap context
+	AxiomSrc  []string
 	Name      string
 	RecParams []string // quantified integer parameters of a recursive spec function
 	Params    []string
@@ -986,12 +1149,24 @@ func (env *Env) recSpecCall(sf *SpecFunc, args []Term) Term {
 	c.recSelf = map[string]bool{sf.Name: true}
 	var decl, bvs []string
 	c.qvars = map[string]bool{}
+	var recSorts []string
 	for _, p := range sf.RecParams {
-		bn := fmt.Sprintf("%s!r", p)
+		pname, so, ty := p, SInt, types.Type(types.Typ[types.Int])
+		if i := strings.Index(p, "["); i > 0 && strings.HasSuffix(p, "]") {
+			pname = p[:i]
+			te, err := parser.ParseExpr(p[i+1 : len(p)-1])
+			if err != nil {
+				cfail("%s: bad parameter type %s", sf.Name, p)
+			}
+			ty = env.typeExpr(te)
+			so = env.u().sortOf(ty)
+		}
+		bn := fmt.Sprintf("%s!r", pname)
 		c.qvars[bn] = true
-		c.bound[p] = intT(bn)
-		decl = append(decl, fmt.Sprintf("(%s Int)", bn))
+		c.bound[pname] = mk(bn, so, ty)
+		decl = append(decl, fmt.Sprintf("(%s %s)", bn, so))
 		bvs = append(bvs, bn)
+		recSorts = append(recSorts, string(so))
 	}
 	savedNoName, savedQuiet := env.e.noName, vc.quiet
 	env.e.noName, vc.quiet = true, true
@@ -1007,18 +1182,20 @@ func (env *Env) recSpecCall(sf *SpecFunc, args []Term) Term {
 		vc.ctr["rec"]++
 		fn = fmt.Sprintf("rec_%s!%d", sanitize(sf.Name), vc.ctr["rec"])
 		vc.recInst[key] = fn
-		var sorts []string
-		for range sf.RecParams {
-			sorts = append(sorts, "Int")
-		}
-		vc.decls = append(vc.decls, fmt.Sprintf("(declare-fun %s (%s) %s)", fn, strings.Join(sorts, " "), sf.Result))
+		vc.decls = append(vc.decls, fmt.Sprintf("(declare-fun %s (%s) %s)", fn, strings.Join(recSorts, " "), sf.Result))
+		// "limited function" encoding: a ground occurrence unfolds exactly once; the recursive
+		// occurrences in the body use fn#lim, which is equal to fn but never triggers unfolding.
+		lim := fn + "!lim"
+		vc.decls = append(vc.decls, fmt.Sprintf("(declare-fun %s (%s) %s)", lim, strings.Join(recSorts, " "), sf.Result))
 		lhs := app(fn, bvs...)
-		b := strings.ReplaceAll(body.S, placeholder, fn)
+		b := strings.ReplaceAll(body.S, placeholder, lim)
 		vc.def(fmt.Sprintf("(forall (%s) (! (= %s %s) :pattern (%s)))", strings.Join(decl, " "), lhs, b, lhs))
+		vc.def(fmt.Sprintf("(forall (%s) (! (= %s %s) :pattern (%s)))", strings.Join(decl, " "), app(lim, bvs...), lhs, lhs))
 	}
 	return mk(app(fn, as...), sf.Result, rt)
 }
 
+var rxAnyBound = regexp.MustCompile(`[A-Za-z_][A-Za-z0-9_]*!(b[0-9]+|r)`)
 var rxBoundName = regexp.MustCompile(`[A-Za-z_][A-Za-z0-9_]*!b[0-9]+`)
 
 func normalizeBound(s string) string {
